@@ -306,3 +306,19 @@ Definition int_enum_filled_by_name (a : action) : bool :=
   | _ => false
   end.
 Definition known_C05_int_enum_fill_by_name (_ : schema) (acts : list action) : bool := existsb int_enum_filled_by_name acts.
+
+(* ---- C02-remove-constraint-overmatch: RemoveConstraint of a unique / foreign key rebuilds the table without every constraint
+   that "matches" the removed one by remove_constraint.rs:94-115,187-210 — same name when both are named, otherwise same
+   column list — which can be more than the one constraint apply_action removes (exact equality) *)
+Definition removes_more_than_named (s : schema) (_ : list action) (a : action) : bool :=
+  match a with
+  | RemoveConstraint t k =>
+      match k, find_table t s with
+      | CIndex _ _, _ => false
+      | _, Some td => existsb (fun c => (negb (constraint_eqb c k) && negb (keep_after_remove k c))%bool) (t_constraints td)
+      | _, None => false
+      end
+  | _ => false
+  end.
+Definition known_C02_remove_constraint_overmatch (s : schema) (acts : list action) : bool :=
+  exists_step removes_more_than_named s acts.
